@@ -224,6 +224,38 @@ fn mapped_forms(a: &str) -> Vec<String> {
     }
 }
 
+/// Is there a LISTEN socket on `port` that is one of the file descriptors of process `pid`?
+fn listener_owned_by(pid: u32, port: u16) -> bool {
+    let mut inodes: Vec<String> = vec![];
+    for f in ["/proc/net/tcp", "/proc/net/tcp6"] {
+        if let Ok(txt) = fs::read_to_string(f) {
+            for l in txt.lines().skip(1) {
+                let c: Vec<&str> = l.split_whitespace().collect();
+                if c.len() > 9 && c[3] == "0A" {
+                    if let Some(p) = c[1].rsplit(':').next() {
+                        if u16::from_str_radix(p, 16).ok() == Some(port) {
+                            inodes.push(format!("socket:[{}]", c[9]));
+                        }
+                    }
+                }
+            }
+        }
+    }
+    if inodes.is_empty() {
+        return false;
+    }
+    if let Ok(rd) = fs::read_dir(format!("/proc/{}/fd", pid)) {
+        for e in rd.flatten() {
+            if let Ok(t) = fs::read_link(e.path()) {
+                if inodes.iter().any(|i| t.to_string_lossy() == *i) {
+                    return true;
+                }
+            }
+        }
+    }
+    false
+}
+
 /// The list as a file.  The list is a SET of addresses: order, duplicates, other spellings of the same address,
 /// padding entries that name nobody who ever connects or is forwarded, CRLF line ends and a missing final newline
 /// must not change any decision.  (load_list_file: one address per line, no comments, no blank lines.)
@@ -276,7 +308,8 @@ impl Server {
         fs::write(dir.join("blacklist.txt"), blacklist_file(list, lm, variant)).map_err(|e| e.to_string())?;
         let upstream = Upstream::start();
         let ip: IpAddr = bind_ip.parse().unwrap();
-        for _attempt in 0..6 {
+        for attempt in 0..6 {
+            let nonce = format!("{}-{}-{}", std::process::id(), name, attempt);
             let port = {
                 let l = TcpListener::bind(SocketAddr::new(ip, 0)).map_err(|e| format!("cannot bind {}: {}", bind_ip, e))?;
                 l.local_addr().unwrap().port()
@@ -288,8 +321,8 @@ impl Server {
             // with an empty list the file directive may be missing (mode without file, see above)
             let modeline = if mode == "block" && variant % 3 == 1 { String::new() } else { format!("    mode \"{}\"\n", mode) };
             let conf = format!(
-                "server {{\n  address \"{ip}\"\n  port {port}\n  threads 4\n  blacklist {{\n{blfile}{modeline}  }}\n  log {{\n    level \"error\"\n    console false\n  }}\n{cache_sec}  route /file/* {{\n    file \"{d}/file.txt\"\n  }}\n  route /dir/* {{\n    directory \"{d}/www\"\n  }}\n  route /redir/* {{\n    redirect \"{redir}\"\n  }}\n  route /proxy/* {{\n    proxy \"127.0.0.1:{up}\"\n  }}\n}}\n",
-                ip = bind_ip, port = port, blfile = blfile, modeline = modeline, cache_sec = cache_sec, d = dir.display(), redir = REDIRECT_TARGET, up = upstream.port
+                "server {{\n  address \"{ip}\"\n  port {port}\n  threads 4\n  blacklist {{\n{blfile}{modeline}  }}\n  log {{\n    level \"error\"\n    console false\n  }}\n{cache_sec}  route /file/* {{\n    file \"{d}/file.txt\"\n  }}\n  route /dir/* {{\n    directory \"{d}/www\"\n  }}\n  route /redir/* {{\n    redirect \"{redir}\"\n  }}\n  route /proxy/* {{\n    proxy \"127.0.0.1:{up}\"\n  }}\n  route /c19id/{nonce} {{\n    redirect \"http://c19.invalid/id/{nonce}\"\n  }}\n}}\n",
+                ip = bind_ip, port = port, nonce = nonce, blfile = blfile, modeline = modeline, cache_sec = cache_sec, d = dir.display(), redir = REDIRECT_TARGET, up = upstream.port
             );
             let conf_path = dir.join("humphrey.conf");
             fs::write(&conf_path, conf).map_err(|e| e.to_string())?;
@@ -316,9 +349,41 @@ impl Server {
                 std::thread::sleep(Duration::from_millis(5));
             }
             if up {
-                // the port was free when it was chosen, but if our process has exited somebody else answers there
-                std::thread::sleep(Duration::from_millis(15));
-                if let Ok(Some(_)) = child.try_wait() {
+                // the port was free when it was chosen, but other harnesses start servers on this machine too: the
+                // listener that answered must be a socket of OUR child (inode in /proc/net/tcp* = an fd of the child)
+                // Asked through a route only this configuration has (a redirect to a nonce), from an address that is on
+                // no list; where no such source exists (::1 listed, no second IPv6 address) /proc is consulted instead.
+                let id_src: Option<IpAddr> = if bind_ip != "::1" {
+                    Some(WARM_V4.parse().unwrap())
+                } else if !list.iter().any(|a| a == "::1") {
+                    Some("::1".parse().unwrap())
+                } else {
+                    other_v6().map(IpAddr::V6)
+                };
+                let t1 = Instant::now();
+                let mut ours = false;
+                while t1.elapsed() < Duration::from_secs(5) {
+                    if let Ok(Some(_)) = child.try_wait() {
+                        break;
+                    }
+                    let proven = match id_src.and_then(|src| connect_from(src, addr, Duration::from_secs(5)).ok()) {
+                        Some(mut c) => {
+                            let _ = c.write_all(format!("GET /c19id/{n} HTTP/1.1\r\nHost: c19.test\r\n\r\n", n = nonce).as_bytes());
+                            let mut lo = vec![];
+                            let o = read_response(&mut c, &mut lo, true);
+                            o.status == Some(301) && o.headers.iter().any(|(k, v)| k == "location" && *v == format!("http://c19.invalid/id/{}", nonce))
+                        }
+                        None => listener_owned_by(child.id(), port),
+                    };
+                    if proven {
+                        ours = true;
+                        break;
+                    }
+                    std::thread::sleep(Duration::from_millis(10));
+                }
+                if !ours {
+                    let _ = child.kill();
+                    let _ = child.wait();
                     continue;
                 }
                 return Ok(Server { child, addr, dir, cache, upstream, ver: 0, fresh: 0, warmed: BTreeMap::new() });
